@@ -31,7 +31,8 @@ THEOREMS = [
     "any_two_schedulers_agree",
     "ambient_clean",
     "no_unsafe",
-    "one_replica_differs",
+    "one_replica_agrees",
+    "one_replica_old_guard_differs",
 ]
 
 RULE = ("ambient-state list and Clone field maps regenerated from /repo/src on every run.  Runtime (Rust vs Rust, real code): "
@@ -84,6 +85,6 @@ def main(ck):
     if ck.cargo_build(BINS):
         cases = ck.harness("c13", ["all"])
         ck.correspond("twin-clone-pool", "drv_c13", cases, max_samples=8)
-    ck.notes.append("one-replica container: parallel_tempering_step draws one container-RNG word, tempering_step none (returns equal) — modelled (one_replica_differs) and measured (`draws 1` case); not a violation of the statement")
+    ck.notes.append("one-replica container: finding F30 (parallel_tempering_step drew one container-RNG word, tempering_step none; after add_qmc_stepper the two drivers diverged) repaired by fix f20b8b5; model: one_replica_agrees, regression witness one_replica_old_guard_differs; measured by the `draws 1` case whose oracle now compares the complete container state")
     api_cov.run(ck, "c13")   # otherwise unexercised public API, model-free oracles of this property
     return ck.finish(RULE)
